@@ -315,6 +315,8 @@ def gen_installed(tier):
                         continue
                     cfg = Cfg("v3", auth=auth, priv=priv, key_type=kt, priv_key_type=pkt, discover=disc, auth_pass=password(n), priv_pass=password(n + 3)[3:] or b"x")
                     yield {"cfgs": [cfg.describe()], "history": ([["discover", 0, 2]] if disc else []) + hist}
+                    if disc and n in (8, 64):
+                        yield {"cfgs": [cfg.describe()], "history": [["discover", 0, 301]] + hist}
     # identical octets for both keys, every pair of key types
     for auth, priv in ((1, 1), (2, 2), (1, 2), (2, 1)):
         for kt, pkt in itertools.product((0, 1, 2), repeat=2):
@@ -377,7 +379,8 @@ def run(tier):
             for disc in (False, True):
                 if 2 in (kt, pkt) and disc:
                     continue
-                pub.append({"auth": auth, "priv": priv, "kt": kt, "pkt": pkt, "klen": 16 if auth == 1 else 20, "discover": disc})
+                for klen in (5, 16 if auth == 1 else 20, 25) + ((1, 15, 21, 40) if thorough else ()):
+                    pub.append({"auth": auth, "priv": priv, "kt": kt, "pkt": pkt, "klen": klen, "discover": disc})
     common.run_cases(rec, work_public, pub, chunk=6)
     mal = [{"kind": k} for k in ("localized_master_len", "alg_codes", "empty_password", "socket_key_len", "socket_alg_codes")]
     common.run_cases(rec, work_malformed, mal, chunk=1)
